@@ -10,6 +10,16 @@ thread_local! {
     static POLLS:      Cell<u64> = Cell::new(0);
     static INJECTIONS: RefCell<Vec<(u64, String)>> = RefCell::new(vec![]);
     static CHANNEL:    RefCell<Option<Sender<DebugMessage>>> = RefCell::new(None);
+    static EVALUATOR_ERRORS: Cell<u64> = Cell::new(0);
+}
+
+// signals raised by the evaluator itself (unbound symbol, bad operator, closure arity) since the last reset
+pub fn verif_note_evaluator_error() {
+    EVALUATOR_ERRORS.with(|e| e.set(e.get() + 1));
+}
+
+pub fn verif_evaluator_errors(reset: bool) -> u64 {
+    EVALUATOR_ERRORS.with(|e| { let n = e.get(); if reset { e.set(0); } n })
 }
 
 pub fn verif_set_injections(injections: Vec<(u64, String)>, channel: Sender<DebugMessage>) {
@@ -41,6 +51,27 @@ pub fn verif_poll() {
                     }
                 });
             }
+        }
+    });
+}
+
+// A scripted debugger: the injections with poll index 0 are its answers to `receive`, handed over
+// one per call at the moment the worker is about to block in it; the last one is repeated for ever.
+pub fn verif_on_receive() {
+    INJECTIONS.with(|i| {
+        let mut i = i.borrow_mut();
+        if let Some(pos) = i.iter().position(|(k, _)| *k == 0) {
+            let command = i[pos].1.clone();
+            if i.iter().skip(pos + 1).any(|(k, _)| *k == 0) {
+                i.remove(pos);
+            }
+            CHANNEL.with(|c| {
+                if let Some(ch) = &*c.borrow() {
+                    let mut dm = DebugMessage::new();
+                    dm.insert("command".to_string(), command);
+                    let _ = ch.send(dm);
+                }
+            });
         }
     });
 }
